@@ -729,6 +729,9 @@ let check_P line toks =
       | "pmove_new_pawn_promo" -> Some "err"
       | _ -> None in
     (match e with
+     | Some e when e <> v && f = "mvtext" && (let n = String.length v in n >= 5 && String.sub v (n - 5) 5 = ":same") ->
+       (* C16 fixes the round trip, not the text: the library's own round trip holds, only the text differs from the model's *)
+       report "P" (f ^ "(" ^ a ^ ")") (f ^ "-shape") e v line
      | Some e when e <> v && f = "bb_render" && bb_grid_says (unhex v) (fun sq -> List.mem sq (List.map int_of_n (bits (n_of_hex a)))) ->
        report "P" (f ^ "(" ^ a ^ ")") (f ^ "-shape") e v line
      | Some e when e <> v && f = "gstatus_text" &&
